@@ -279,6 +279,22 @@ def npoint_case(case):
                                   smoothing_window=w, limit_slope=limit)
                 evaluate(r, 'npoint', tag, make, N, P, pl, list(ts), expect, window=w, pnodes=pfull, limit=limit,
                          tname=tname)
+                if w == case['windows'][0]:
+                    # the same controls arriving as numpy scalars through the fitting-parameter setters (what a sampler
+                    # hands over: elements of a float64 array), on an object built with other values
+                    def make_np():
+                        o = NPoint(T_surface=1234.5, T_top=432.1, P_surface=a_s, P_top=a_t,
+                                   temperature_points=[777.0 + 3 * k for k in range(len(ts) - 2)],
+                                   pressure_points=list(nodes), smoothing_window=w, limit_slope=limit)
+                        arr = np.array(ts, dtype=np.float64)
+                        fp = o.fitting_parameters()
+                        fp['T_surface'][3](arr[0])
+                        fp['T_top'][3](arr[-1])
+                        for k in range(len(ts) - 2):
+                            fp['T_point%d' % (k + 1)][3](arr[k + 1])
+                        return o
+                    evaluate(r, 'npoint', 'numpy-setters/' + tag, make_np, N, P, pl, list(ts), expect, window=w,
+                             pnodes=pfull, limit=limit, tname=tname)
     return r
 
 
@@ -664,7 +680,9 @@ def explore(ctx):
     for N, g in itertools.product(ns if thorough else [2, 5, 13, 100], grids if thorough else ['std', 'irregular']):
         for nrows in [2, 3, 'N', 'N+1']:
             for cols, delim, punit in [('T', None, 'Pa'), ('PT', None, 'Pa'), ('TP', None, 'Pa'), ('PT', ',', 'Pa'),
-                                       ('PT', None, 'bar'), ('TP', ',', 'bar')]:
+                                       ('PT', None, 'bar'), ('TP', ',', 'bar'),
+                                       # a temperature-only file read with a pressure unit declared anyway
+                                       ('T', None, 'bar')]:
                 for skip in (0, 1):
                     fil.append({'N': N, 'grid': g, 'nrows': nrows, 'cols': cols, 'delim': delim, 'punit': punit,
                                 'skip': skip})
